@@ -111,6 +111,8 @@ class Gen:
         self.scaled = {}
         self.known = {}           # id -> framebuffer size the client has been told (generator's estimate)
         self.pending = {}         # id -> a size change the server still owes this client
+        self.cbpp = {}            # id -> bits per pixel of the client's current format
+        self.pref = {}            # id -> preferred pixel encoding (sticky like in the server)
         self.tags = set()
 
     def op(self, s):
@@ -149,7 +151,20 @@ class Gen:
         self.normal.append(i)
         self.caps[i] = set()
         self.known[i] = (self.w, self.h)
+        self.cbpp[i] = 8 * self.bpp
+        self.pref[i] = RAW
         return i
+
+    def png_unsafe(self, pref, cbpp):
+        """TightPng + 16bpp client + big rectangles overflows cl->afterEncBuf in pngWriteData (memory
+        safety defect of the unchanged tree, reported to C04/C01; not a wire-format question)"""
+        return pref == TIGHTPNG and cbpp == 16 and self.bpp != 1 and self.w * self.h > 36000
+
+    def setpf(self, i, fmt):
+        if self.png_unsafe(self.pref[i], fmt[0]):
+            return
+        self.op("setpf %d %s" % (i, " ".join(str(v) for v in fmt)))
+        self.cbpp[i] = fmt[0]
 
     def req(self, i, inc, partial=False):
         """a conforming client never asks for more than the framebuffer it has been told about"""
@@ -165,6 +180,9 @@ class Gen:
                 self.known[i] = self.pending.pop(i)
 
     def resize(self, nw, nh, via=None):
+        if any(self.pref[i] == TIGHTPNG and self.cbpp[i] == 16 for i in self.normal) and self.bpp != 1 \
+                and nw * nh > 36000:
+            return
         if via is None:
             self.op("resize %d %d" % (nw, nh))
         else:
@@ -176,15 +194,24 @@ class Gen:
 
     def setscale(self, i, k, palm=False):
         self.op("%s %d %d" % ("palmscale" if palm else "setscale", i, k))
-        self.known[i] = (self.w // k, self.h // k)
+        if self.caps[i] & {NEWFBSIZE, EXTDESKTOPSIZE}:
+            self.pending[i] = (self.w // k, self.h // k)     # told by a NewFBSize rectangle, later
+        else:
+            self.known[i] = (self.w // k, self.h // k)       # told at once by ResizeFrameBuffer
         if k > 1:
             self.scaled[i] = k
         else:
             self.scaled.pop(i, None)
 
     def setenc(self, i, encs):
+        pix = [e for e in encs if e in PIXEL_ENCS]
+        if pix and self.png_unsafe(pix[0], self.cbpp[i]):
+            encs = [TIGHT if e == TIGHTPNG else e for e in encs]
+            pix = [e for e in encs if e in PIXEL_ENCS]
         self.op("setenc %d %s" % (i, " ".join(str(e) for e in encs)))
         self.caps[i] = set(encs)
+        if pix:
+            self.pref[i] = pix[0]
 
     def rect_in_screen(self, maxw=None, maxh=None):
         r = self.rng
@@ -241,7 +268,7 @@ def gen_session(rng):
         i = g.connect(minor, passwd=passwd, good=(r.random() < 0.85))
         if i in g.normal:
             if r.random() < 0.6:
-                g.op("setpf %d %s" % (i, " ".join(str(v) for v in r.choice(PIXFMTS))))
+                g.setpf(i, r.choice(PIXFMTS))
             if r.random() < 0.9:
                 g.setenc(i, rand_enc_list(r))
             g.req(i, 0)
@@ -266,7 +293,8 @@ def gen_session(rng):
             if 0 <= x - dx and x - dx + ww <= g.w and 0 <= y - dy and y - dy + hh <= g.h and (dx or dy):
                 g.op("copy %d %d %d %d %d %d" % (x, y, ww, hh, dx, dy))
         elif a < 0.56:
-            cw, ch = r.choice([(1, 1), (8, 8), (16, 16), (17, 9), (32, 32), (5, 40)])
+            cw, ch = r.choice([(1, 1), (8, 8), (16, 16), (17, 9), (32, 32), (5, 40), (8, 8), (16, 16),
+                               (90, 90), (91, 91), (100, 100), (512, 255), (512, 256), (128, 64)])
             g.op("cursor %d %d %d %d %d %d" % (cw, ch, r.randint(0, cw - 1), r.randint(0, ch - 1),
                                                  r.randint(0, 1), r.randint(1, 10 ** 6)))
         elif a < 0.62:
@@ -287,7 +315,7 @@ def gen_session(rng):
         elif a < 0.82:
             g.setenc(i, rand_enc_list(r))
         elif a < 0.86:
-            g.op("setpf %d %s" % (i, " ".join(str(v) for v in r.choice(PIXFMTS))))
+            g.setpf(i, r.choice(PIXFMTS))
         elif a < 0.90 and not g.scaled:
             nw, nh = r.choice(SCREENS[:9])
             g.resize(nw, nh)
@@ -310,7 +338,7 @@ def gen_session(rng):
         elif a < 0.985:
             g.op("chat %d %d %s" % (i, r.choice([4294967295, 4294967294, 4294967293]), "-"))
         else:
-            n = r.choice([1, 10, 300])
+            n = r.choice([1, 10, 300, 4095, 4096, 4097, 5000])
             g.op("chat %d %d %s" % (i, n, hexs(r, n)))
     for i in g.normal:
         g.req(i, 1)
@@ -388,7 +416,7 @@ def gen_boundary(rng):
     g.screen(W, H, bpp, maxrects=r.choice([0, 1, 50]))
     i = g.connect(r.choice([3, 7, 8]))
     if r.random() < 0.4:
-        g.op("setpf %d %s" % (i, " ".join(str(v) for v in r.choice(PIXFMTS))))
+        g.setpf(i, r.choice(PIXFMTS))
     encs = [enc]
     if r.random() < 0.5:
         encs.append(LASTRECT)
@@ -420,10 +448,10 @@ def gen_multirect(rng):
     enc = r.choice(PIXEL_ENCS)
     g.setenc(i, rand_enc_list(r, prefer=enc))
     if r.random() < 0.4:
-        g.op("setpf %d %s" % (i, " ".join(str(v) for v in r.choice(PIXFMTS))))
+        g.setpf(i, r.choice(PIXFMTS))
     g.op("fbur %d 0 0 0 %d %d" % (i, w, h))
     for _ in range(r.choice([1, 2, 4])):
-        shape = r.choice(["L", "small", "checker", "stripes", "copy"])
+        shape = r.choice(["L", "small", "checker", "stripes", "copy", "copychk"])
         if shape == "L":
             x, y = r.randint(0, w // 2), r.randint(0, h // 2)
             a, b = r.randint(10, w // 2), r.randint(10, h // 2)
@@ -443,6 +471,12 @@ def gen_multirect(rng):
             for k in range(r.choice([3, 8, 55])):
                 if 2 * k + 1 < h:
                     g.op("mark %d %d %d %d" % (0, 2 * k, r.randint(1, w), 1))
+        elif shape == "copychk":
+            # a copy region of many rectangles (rfbScheduleCopyRegion takes any region)
+            cw, ch = r.choice([(10, 4), (64, 33), (90, 46), (96, 43), (97, 64)])
+            cw, ch = min(cw, w), min(ch, h // 2)
+            x, y = r.randint(0, w - cw), r.randint(ch, h - ch)
+            g.op("copychk %d %d %d %d 1 0 %d" % (x, y, cw, ch, r.randint(1, min(ch, y))))
         else:
             x, y, ww, hh = g.rect_in_screen(maxw=w // 2, maxh=h // 2)
             dx = r.randint(x + ww - w, x)        # source = destination - (dx, dy) must be on the screen
@@ -535,6 +569,9 @@ def gen_handshake(rng):
             g.hs.remove(i)
         if i in g.normal and r.random() < 0.5:
             g.op("fbur %d 0 0 0 %d %d" % (i, g.w, g.h))
+        if r.random() < 0.35:
+            # application broadcasts while other clients may still be in the handshake
+            g.op(r.choice(["bell", "scut %s" % hexs(r, r.choice([0, 3, 40]))]))
     return g.text(), {"handshake"}
 
 
@@ -552,8 +589,68 @@ def pick_gen(rng):
 
 
 # ------------------------------------------------------------------------------------- known findings
-def classify_finding(script, fail):
-    """precise predicates on the failing input for defects of the unchanged tree (see docs/C03.md)"""
+import re
+RE_OUT = re.compile(r"!ORACLE (\d+) rect \d+: (\d+),(\d+),(\d+),(\d+) outside the announced framebuffer "
+                    r"\(announced (\d+)x(\d+)\) \[op (\d+)\]")
+RE_HS = re.compile(r"!PARSE (\d+) unexpected bytes during the handshake: (\w\w).* \[op (\d+)\]")
+
+
+def script_ops(script):
+    return [l for l in script.splitlines() if l.strip() and not l.startswith("#")]
+
+
+def softcursor_pred(ops, line):
+    """finding c03-softcursor-outside-announced: the rectangle leaves the announced framebuffer only
+    within the extent of a soft-cursor rectangle (some pointer position x some cursor shape of the
+    script so far) and the client has no cursor-shape capability"""
+    m = RE_OUT.match(line)
+    if not m:
+        return False
+    c, x, y, w, h, aw, ah, opn = (int(v) for v in m.groups())
+    # every pointer position and every cursor shape of the script so far (a client keeps its own
+    # last-seen pointer position until its next update)
+    pos, shapes = {(0, 0)}, {(8, 7, 3, 3)}
+    caps, norichx = set(), False
+    for l in ops[:opn + 1]:
+        t = l.split()
+        if t[0] == "opt" and t[1] == "norichx":
+            norichx = t[2] != "0"
+        elif t[0] == "ptr":
+            pos.add((int(t[3]), int(t[4])))
+        elif t[0] == "cursor":
+            shapes.add((int(t[1]), int(t[2]), int(t[3]), int(t[4])))
+        elif t[0] == "setenc" and int(t[1]) == c:
+            caps = set(int(v) for v in t[2:])
+    max_r = max(px - xh + cw for (px, _) in pos for (cw, _, xh, _) in shapes)
+    max_b = max(py - yh + ch for (_, py) in pos for (_, ch, _, yh) in shapes)
+    has_shape = RICHCURSOR in caps or (XCURSOR in caps and not norichx)
+    return (not has_shape) and x + w <= max(aw, max_r) and y + h <= max(ah, max_b)
+
+
+def classify_finding(script, impl, fail):
+    """precise predicates on the failing input for defects of the unchanged tree (docs/C03.md)"""
+    ops = script_ops(script)
+    det = fail.get("detail")
+    lines = det if isinstance(det, list) else []
+    # c03-nrects-16bit: some planned update has >= 65535 rectangles (up to 6 pseudo-rectangles)
+    for l in impl:
+        if l.startswith("hook "):
+            t = l.split()
+            try:
+                nu = int(t[5])
+                nc = int(t[t.index("C") + 1])
+            except (ValueError, IndexError):
+                continue
+            if nu + nc >= 65529 and fail["kind"] in ("oracle", "exact"):
+                return "c03-nrects-16bit"
+    if fail["kind"] == "oracle" and lines:
+        if all(softcursor_pred(ops, l) for l in lines):
+            return "c03-softcursor-outside-announced"
+        # defects with a proposed fix (fixes/C03-*.diff); not suppressed, only labelled
+        m = RE_HS.match(lines[0])
+        if m and int(m.group(3)) < len(ops) and ops[int(m.group(3))].split()[0] in ("bell", "scut", "scututf8") \
+                and m.group(2) in ("02", "03"):
+            return "c03-broadcast-during-handshake"
     return None
 
 
@@ -581,6 +678,11 @@ def summarize(model, dist):
 
 
 def run(ctx):
+    if os.environ.get("VERIF_C03_ACCEPT_PROPOSED"):
+        # testing aid only: behave as if the proposed known_findings.json entries were registered
+        pp = os.path.join(common.VERIF, "corpus", "C03", "known_findings.proposed.json")
+        have = {k["id"] for k in ctx.known}
+        ctx.known += [k for k in json.load(open(pp))["findings"] if k["id"] not in have]
     h = ctx.harness("c03", extra=HARNESS_EXTRA)
     d = ctx.driver("drv_c03")
     fails, samples = [], []
@@ -611,7 +713,7 @@ def run(ctx):
             dist["ops"][k] = dist["ops"].get(k, 0) + 1
         summarize(model, dist)
         for f in fs:
-            fid = classify_finding(script, f)
+            fid = classify_finding(script, impl, f)
             if fid:
                 f["finding"] = fid
             fails.append(f)
